@@ -118,8 +118,8 @@ def run(ctx, rep):
         raise AnalysisError("update table of modernize_symbol not found")
     got = fo.global_value(*table)
     want = SPEC.legacy_table()
-    ring = fo.global_value("selfies.grammar_rules", "_PROCESS_RING_CACHE")
-    branch = fo.global_value("selfies.grammar_rules", "_PROCESS_BRANCH_CACHE")
+    ring = __import__("rules.symlang", fromlist=["x"]).symbol_table(ctx, "ring")
+    branch = __import__("rules.symlang", fromlist=["x"]).symbol_table(ctx, "branch")
     for k in sorted(set(got) | set(want)):
         ok = got.get(k) == want.get(k)
         rep.ob("M1", ok, None, None, loc="selfies/compatibility.py", construct="legacy entry %s" % k, how="equals CHANGELOG mapping %s" % want.get(k),
